@@ -109,7 +109,28 @@ pub struct Renderer<'r> {
     /// comments / blank lines may be inserted before the next line
     may_interleave: bool,
     pub comments: bool,
+    /// model the parser's keep_tags option: declarations stay in force in later documents
+    pub keep_tags: bool,
     last_leaf_null: bool,
+}
+
+/// RFC 3986 percent-decoding: %HH octets are assembled and decoded as UTF-8.
+pub fn percent_decode(s: &str) -> String {
+    let b = s.as_bytes();
+    let mut out: Vec<u8> = Vec::with_capacity(b.len());
+    let mut i = 0;
+    while i < b.len() {
+        if b[i] == b'%' && i + 3 <= b.len() && s.is_char_boundary(i + 1) && s.is_char_boundary(i + 3) {
+            if let Ok(v) = u8::from_str_radix(&s[i + 1..i + 3], 16) {
+                out.push(v);
+                i += 3;
+                continue;
+            }
+        }
+        out.push(b[i]);
+        i += 1;
+    }
+    String::from_utf8_lossy(&out).into_owned()
 }
 
 fn is_collection(n: &ANode) -> bool {
@@ -129,6 +150,7 @@ impl<'r> Renderer<'r> {
             handles: HashMap::new(),
             may_interleave: true,
             comments: true,
+            keep_tags: false,
             last_leaf_null: false,
         }
     }
@@ -187,13 +209,15 @@ impl<'r> Renderer<'r> {
     // properties
     // -------------------------------------------------------------------------------------------
 
+    /// (prefix, suffix) the parser must report: the prefix bound to the handle by the directives in
+    /// force, and the percent-decoded suffix.
     fn resolved_tag(&self, t: &ATag) -> (String, String) {
         match t {
-            ATag::Local(n) => ("!".into(), n.clone()),
-            ATag::Secondary(n) => (self.handles.get("!!").cloned().unwrap_or_else(|| "tag:yaml.org,2002:".to_string()), n.clone()),
-            ATag::Verbatim(v) => (String::new(), v.clone()),
+            ATag::Local(n) => (self.handles.get("!").cloned().unwrap_or_else(|| "!".to_string()), percent_decode(n)),
+            ATag::Secondary(n) => (self.handles.get("!!").cloned().unwrap_or_else(|| "tag:yaml.org,2002:".to_string()), percent_decode(n)),
+            ATag::Verbatim(v) => (String::new(), percent_decode(v)),
             ATag::NonSpecific => (String::new(), "!".into()),
-            ATag::Named(h, s) => (self.handles.get(h).cloned().unwrap_or_default(), s.clone()),
+            ATag::Named(h, s) => (self.handles.get(h).cloned().unwrap_or_default(), percent_decode(s)),
         }
     }
 
@@ -874,7 +898,9 @@ impl<'r> Renderer<'r> {
             self.out.push_str("# leading comment\n");
         }
         for (di, d) in docs.iter().enumerate() {
-            self.handles.clear();
+            if !self.keep_tags {
+                self.handles.clear();
+            }
             let has_dirs = d.yaml_directive || !d.tag_directives.is_empty() || d.reserved_directive;
             let Some(root) = &d.root else { continue };
             let root_null_plain = matches!(root.kind, AKind::Null) && root.anchor.is_none() && root.tag.is_none();
@@ -888,7 +914,7 @@ impl<'r> Renderer<'r> {
                 }
                 for (h, p) in &d.tag_directives {
                     lines.push(format!("%TAG {h} {p}"));
-                    self.handles.insert(h.clone(), p.clone());
+                    self.handles.insert(h.clone(), percent_decode(p));
                 }
                 if d.reserved_directive {
                     lines.push("%FOO bar baz".to_string());
